@@ -256,5 +256,57 @@ def run(ctx):
             run.inst("C11.B6", "exact-vertex-list:" + user.split("::")[-1], not pads,
                      "%s reads the shape's vertices through %s" % (user.split("::")[-1], "the exact-length list" if not pads else "get_vertices(), the 5-slot array that pads triangles with (0,0)"),
                      where(pads[0].span) if pads else where(fu.fn["span"]))
+    # B7: split_edges emits, for every vertex of the shape, that vertex followed by exactly segments - 1 interior points:
+    # the number of points per edge is an integer count, never the outcome of floating-point accumulation
+    if SPLIT in facts.fns:
+        from ..query import seq_nth, linear
+        fs = fn_terms(facts, SPLIT)
+        ws = where(facts.fns[SPLIT]["span"])
+        pushes = [c for c in fs.calls() if c.callee and c.callee.endswith("Vec::push") and c.args]
+        keys = {ref_key(c.args[0]) for c in pushes}
+        all_l = loops_of(fs)
+        top = [l for l in all_l if not any(l.body < m.body for m in all_l)]
+        top = [l for l in top if any(c.block in l.body for c in pushes)]
+        why7 = None
+        if len(keys) != 1 or len(top) != 1:
+            why7 = "expected one vector filled inside one loop over the shape's vertices, found %d vector(s) / %d loop(s) - unrecognised idiom, cannot decide" % (len(keys), len(top))
+        else:
+            O = top[0]
+            key7 = list(keys)[0]
+            others = [c for c in mutators_of(fs, key7) if c not in pushes and c.block in O.body]
+            nested = [l for l in all_l if l.body < O.body and not any(l.body < m.body < O.body for m in all_l)]
+            own_p = [c for c in pushes if c.block in O.own]
+            verts = lambda t_: any(x[0] == "field" and x[2] == "vertices" and any(y == ("param", 1) for y in walk(x)) for x in walk(t_))
+            r_o = seq_nth(fs, O.source) if O.source is not None else None
+            if others:
+                why7 = "the result vector is also changed by %s inside the loop" % sorted({c.callee.split("::")[-1] for c in others})
+            elif r_o is None or r_o[1] == ("inf",) or not ((r_o[1] is None and verts(O.source) and not any(
+                    x[0] == "call" and isinstance(x[1], str) and x[1].split("::")[-1] in ("skip", "take", "step_by", "filter", "skip_while", "take_while", "filter_map", "chain", "flat_map")
+                    and not any(y[0] == "call" and isinstance(y[1], str) and y[1].endswith("::cycle") for y in walk(x)) for x in walk(O.source)))
+                    or (r_o[1] is not None and linear(r_o[1])[1] == 0 and [c_ for c_ in linear(r_o[1])[0].values() if c_ != 0] == [1] and verts(r_o[1]))):
+                why7 = "the outer loop does not run once per vertex of the shape (source %s)" % (fmt(O.source)[:80] if O.source is not None else "not an integer-counted loop")
+            elif len(own_p) != 1 or not every_iteration(fs, O, own_p[0].block) or not (
+                    verts(own_p[0].args[1]) or any(strip_site(x) == strip_site(O.item) for x in walk(own_p[0].args[1]))):
+                why7 = "each edge must start with exactly one push of its own vertex (found %d push(es) directly in the vertex loop)" % len(own_p)
+            else:
+                inner_p = [l for l in nested if any(c.block in l.body for c in pushes)]
+                if len(inner_p) != 1:
+                    why7 = "expected one loop adding the interior points of an edge, found %d" % len(inner_p)
+                else:
+                    I = inner_p[0]
+                    ip = [c for c in pushes if c.block in I.body]
+                    r_i = seq_nth(fs, I.source) if I.source is not None else None
+                    if I.source is None or r_i is None or r_i[1] is None:
+                        why7 = "the interior points of an edge are added by a loop whose trip count is not an integer count (it must run exactly segments - 1 times)"
+                    else:
+                        co, k_ = linear(r_i[1])
+                        co = {strip_site(a): c_ for a, c_ in co.items() if c_ != 0}
+                        early = [(b, s2) for b, s2 in I.exits if b != I.item_switch and fs.blocks[s2]["term"]["k"] != "unreachable" and not fs.blocks[s2].get("cleanup")]
+                        if not (co == {("param", 2): 1} and k_ == -1):
+                            why7 = "the interior-point loop runs %s times, not segments - 1" % fmt(r_i[1])[:80]
+                        elif len(ip) != 1 or ip[0].block not in I.own or not every_iteration(fs, I, ip[0].block) or early:
+                            why7 = "the interior-point loop must push exactly one point per iteration and leave only when the count is exhausted (pushes %d, early exits %s)" % (len(ip), early)
+        run.inst("C11.B7", "points-per-edge", why7 is None,
+                 "split_edges pushes each vertex followed by exactly segments - 1 interior points, counted in integers" if why7 is None else why7, ws)
     run.inst("C11.B1", "world-cell-empty", len(empties) <= 1, "the only other Ok result is the empty ring of the world cell", w, nontrivial=False)
     run.floor("C11", "rule instances", len(run.instances), 10)
